@@ -1,16 +1,18 @@
 """C06 — every input ends in a value or a diagnosed error — never a crash or a hang."""
 import io, itertools, os, re, subprocess, sys
 import core
+import pipeline
 
 ID = "C06"
-LEAN_MODULES = ["KaVerif.Props.C06"]
-GEN = ["Exec", "Registry"]
+LEAN_MODULES = ["KaVerif.Props.C06"] + pipeline.LEAN_MODULES
+GEN = ["Exec", "Registry", "Units", "Tokens"]
 THEOREMS = ["KaVerif.C06_escape_iff", "KaVerif.C06_stream_discipline", "KaVerif.C06_tables", "KaVerif.C06_no_escape_current",
-            "KaVerif.C06_caret", "KaVerif.C06_commands"]
+            "KaVerif.C06_caret", "KaVerif.C06_commands"] + pipeline.THEOREMS
 RULE = ("(i) every registered function name x every tuple of value kinds up to arity 2 (arity 3 sampled) and every operator x every "
         "pair of kinds (12 kinds: int, fraction, float, lazy, quantity, array, interval, instant, string, random variable, event, "
         "plot; representative values incl. 0, negatives, empty array, month ends); (ii) token soups; (iii) arbitrary character "
         "sequences over ASCII + currency/± /μ; (iv) well-formed random programs; (v) every % command with 0-3 arguments; "
+        "(iv') whole programs and sessions through the unified pipeline model (lexer->parser->evaluator->display) vs execute(); "
         "(vi) a sample through `python -m ka.cli`; each through the real execute() with captured streams under a watchdog; "
         "non-trivial = input lexes; distinct = distinct input text")
 ASSUMPTIONS = ["'promptly' is a 4 s watchdog per input; inputs whose literals/exponents/factorial arguments/range lengths exceed 10^6 are "
@@ -220,6 +222,9 @@ def check(ctx):
     for _ in range(ctx.n(300, 20000)):
         t = C01.gen_tree(rng, rng.randrange(1, 6))
         run(C01.render_min(t), "arith")
+    # ---- (iv') the unified pipeline model (text -> status/output), whole programs and sessions, and the sweep's own inputs
+    pipeline.check(ctx, ctx.n(1500, 20000), ctx.n(150, 2000))
+    pipeline.run(ctx, [c[2] for c in rng.sample(cases, min(len(cases), ctx.n(3000, 30000)))], label="run-c06-inputs", min_modelled=0.0)
     # ---- (v) interpreter commands
     cmd_cases = []
     words_pool = ["q", "quit", "h", "help", "u", "unit", "us", "units", "cs", "currencies", "f", "function", "fs", "functions", "x", "",
